@@ -394,8 +394,44 @@ def p_warp_accumulate(dst_shape, tiles, dtype, fill, seed):
     return True, why
 
 
+def p_warp_mixed(src_shape, dst_shape, A, src_dtype, dst_dtype, dst_nodata, seed):
+    """source and destination of different pixel types through the public rio_reproject: the warp must equal
+    the planned paste (values cast to the destination type) on a canvas of the fill, fill = dst_nodata if given,
+    else NaN for a float DESTINATION, else 0 - whatever the source type is.  Placements incl. partial / disjoint."""
+    from affine import Affine
+    from odc.geo.overlap import compute_reproject_roi
+    from odc.geo.warp import rio_reproject
+    src, dst = G.mk_pair(tuple(src_shape), tuple(dst_shape), Affine(*[float(Fr(v)) for v in A]))
+    with warnings.catch_warnings():
+        warnings.simplefilter("ignore")
+        r = compute_reproject_roi(src, dst)
+    if not (r.paste_ok and r.read_shrink == 1):
+        return True, "no paste planned"
+    T = G.true_A(src, dst)
+    ny, nx = src_shape
+    im = (np.arange(ny * nx).reshape(ny, nx) + 1).astype(src_dtype)       # 1..100
+    dn = float("nan") if dst_nodata == "nan" else dst_nodata
+    fill = dn if dn is not None else (float("nan") if dst_dtype.startswith("float") else 0)
+    want = np.full(tuple(dst_shape), fill, dtype=dst_dtype)
+    block = im[r.roi_src]
+    if T[4] < 0:
+        block = block[::-1, :]
+    if T[0] < 0:
+        block = block[:, ::-1]
+    want[r.roi_dst] = block.astype(dst_dtype)
+    got = np.full(tuple(dst_shape), 77, dtype=dst_dtype)
+    with warnings.catch_warnings():
+        warnings.simplefilter("ignore")
+        rio_reproject(im, got, src, dst, "nearest", dst_nodata=dn)
+    cov = int(np.prod([s.stop - s.start for s in r.roi_dst]))
+    why = f"roi_src={r.roi_src} roi_dst={r.roi_dst} covered {cov} of {want.size} pixels, fill={fill}"
+    if not np.array_equal(got, want, equal_nan=dst_dtype.startswith("float")):
+        return False, why + f": {src_dtype} -> {dst_dtype} warp gives {got.tolist()} but pasted region + nodata elsewhere is {want.tolist()}"
+    return True, why
+
+
 PREDICATES = {"paste_warp": p_paste_warp, "can_paste": p_can_paste, "warp_nodata": p_warp_nodata,
-              "warp_accumulate": p_warp_accumulate}
+              "warp_accumulate": p_warp_accumulate, "warp_mixed": p_warp_mixed}
 
 
 def search(out, tier):
@@ -463,6 +499,20 @@ def search(out, tier):
         fill = rng.choice([False, True]) if dtype == "bool" else rng.choice([0, 120] if dtype.startswith("u") else [-1, 120, 0])
         out.count(f"accumulate:{dtype}")
         run("warp_accumulate", list(nd), tiles, dtype, fill, i)
+    # mixed pixel types: integer / float sources into float / integer destinations, dst_nodata omitted or given,
+    # placements inside / partial / touching / disjoint
+    mixed = [(s_, d_) for s_ in ("uint8", "int16", "uint16", "int32", "float32") for d_ in ("float32", "float64", "int32", "int16")
+             if s_ != d_]
+    for i in range((3 if tier == "quick" else 20) * len(mixed)):
+        sdt, ddt = mixed[i % len(mixed)]
+        ns = (rng.randint(2, 10), rng.randint(2, 10))
+        nd = (rng.randint(2, 10), rng.randint(2, 10))
+        A6 = unit_family(rng, ns, nd, 0.05, 1e-3, small_dev=False,
+                         placements=("left", "right", "inside", "cover", "disjoint_lo", "disjoint_hi", "touch_hi", "left", "right"))
+        A6[2], A6[5] = Fr(round(A6[2])) + rng.choice([Fr(0), Fr(1, 64)]), Fr(round(A6[5])) + rng.choice([Fr(0), Fr(-1, 64)])
+        cands = [None, None, "nan", -1.0, 120.0] if ddt.startswith("float") else [None, 0, 120, -7]
+        out.count(f"mixed:{sdt}->{ddt}")
+        run("warp_mixed", list(ns), list(nd), [str(v) for v in A6], sdt, ddt, rng.choice(cands), i)
     # every dtype x every way of giving src_nodata / dst_nodata, destinations only partly covered by the source
     reps = 2 if tier == "quick" else 12
     seq = 0
@@ -510,6 +560,8 @@ def run(out, tier, scratch):
     out.assumptions += [
         "GDAL nearest-neighbour warp meets the contract dst[d] = src[floor(A(d+1/2))] if inside else nodata (validated on every run, all dtypes)",
         "numpy slicing semantics of dst[roi_dst] = src[roi_src][::-1] (validated by the CPaste cases)",
+        "mixed pixel types: rio_reproject casts source values to the destination type and fills uncovered pixels with dst_nodata, else NaN "
+        "for float destinations, else 0 (validated for 16 source/destination type pairs)",
         "accumulating warps: rio_reproject(..., init_dest_nodata=False) writes only covered pixels and keeps the rest of dst (validated for 8 dtypes)",
         "nodata fill of rio_reproject: dst_nodata if given, else NaN for floats, else src_nodata if given, else 0/False; source pixels equal "
         "to src_nodata are invalid (validated for 8 dtypes x every src_nodata/dst_nodata combination on partly covered destinations)",
